@@ -277,6 +277,35 @@ def cte_in_subquery(draw):
                 tags | {'sub:where'})
 
 
+# ---- a table read without alias by the outer query and again, next to another table, by a sub-query: the inner
+#      reference hides the outer one (the sub-query is not correlated); a renderer that uses one table object for both
+#      lets SQLAlchemy correlate the sub-query (the table disappears from its FROM)
+def unaliased_table_repeated(draw):
+    t = _pick(draw, sorted(model.SCHEMA))
+    o = _pick(draw, [x for x in sorted(model.SCHEMA) if x != t])
+    c2 = model.SCHEMA[t][1][0]
+    inner_from = _pick(draw, [f'{o}, {t}', f'{t}, {o}', f'{o} JOIN {t} ON ({o}.a = {t}.a)', f'{o} LEFT JOIN {t} ON ({o}.a = {t}.a)',
+                              f'{o}, {t}, t1 AS z1'])
+    cond = '' if 'JOIN' in inner_from else f' WHERE ({o}.a = {t}.a)'
+    place = _pick(draw, ['exists', 'not-exists', 'in', 'scalar-target', 'scalar-where', 'derived', 'delete'])
+    tags = {'table:unaliased-repeated-in-subquery', 'table-repeated:' + place}
+    outer = _pick(draw, [f'{t}', f'{t}', f'{t} JOIN t1 AS x9 ON (x9.a = {t}.a)'])
+    head = f'SELECT {t}.a AS c0, {t}.{c2} AS c1 FROM {outer}'
+    if place in ('exists', 'not-exists'):
+        neg = 'NOT ' if place == 'not-exists' else ''
+        return _sel(f'{head} WHERE {neg}EXISTS (SELECT 1 FROM {inner_from}{cond})', tags | {'sub:where'})
+    if place == 'in':
+        return _sel(f'{head} WHERE ({t}.a IN (SELECT {o}.a FROM {inner_from}{cond}))', tags | {'sub:where'})
+    if place == 'scalar-target':
+        return _sel(f'SELECT {t}.a AS c0, (SELECT count(*) FROM {inner_from}{cond}) AS c1 FROM {outer}', tags | {'sub:target'})
+    if place == 'scalar-where':
+        return _sel(f'{head} WHERE ({t}.a < (SELECT count(*) FROM {inner_from}{cond}))', tags | {'sub:where'})
+    if place == 'derived':
+        return _sel(f'SELECT {t}.a AS c0, s1.n AS c1 FROM {t} JOIN (SELECT count({t}.a) AS n FROM {inner_from}{cond}) AS s1 '
+                    f'ON (s1.n >= {t}.a)', tags | {'sub:from'})
+    return _dml(f'DELETE FROM {t} WHERE EXISTS (SELECT 1 FROM {inner_from}{cond})', tags | {'dml:delete'})
+
+
 # ---- operands of set operations: chains, parenthesised operands, operands with a WITH clause of their own, result
 #      columns of the first operand written without alias.  SQLite reads no parenthesised operand: the ground truth is the
 #      same statement with every parenthesised operand P written as SELECT * FROM (P)
@@ -379,7 +408,7 @@ def setop_operands(draw):
 
 SHAPES = [plus_text, plus_text, bool_typed, bool_typed, captured_order, json_arrow, exists_alias, create_existing,
           cte_on_setop, offset_only, anon_names, exponent_const, cte_in_subquery, cte_in_subquery, setop_operands,
-          setop_operands]
+          setop_operands, unaliased_table_repeated]
 
 
 @st.composite
@@ -469,7 +498,7 @@ def reuse(draw, other_cases):
         c = cte_in_subquery(draw)
         c['data'] = draw(model.table_data(min_rows=1))
     elif which == 3:
-        c = setop_operands(draw)
+        c = _pick(draw, [setop_operands, setop_operands, unaliased_table_repeated])(draw)
         c['data'] = draw(model.table_data(min_rows=1))
     else:
         c = draw(other_cases)
